@@ -3,10 +3,12 @@ package rules
 import (
 	"fmt"
 	"go/ast"
+	"go/constant"
 	"go/token"
 	"go/types"
 	"path/filepath"
 	"sort"
+	"strconv"
 	"strings"
 
 	"golang.org/x/tools/go/packages"
@@ -15,6 +17,7 @@ import (
 	"ogenverif/internal/byteset"
 	"ogenverif/internal/core"
 	"ogenverif/internal/panicob"
+	"ogenverif/internal/ssaeval"
 )
 
 func init() {
@@ -267,6 +270,8 @@ func runC12(c *core.Ctx) error {
 		}
 	}
 
+	checkEscapeDecisionTables(c, prog)
+
 	// ---- R12.3 consumers
 	r3 := c.NewRule("R12.3", "S1", "consumers compare normalised text (pathID argument, path parser input)", 2)
 	normFn := nfn
@@ -297,6 +302,78 @@ func runC12(c *core.Ctx) error {
 			}
 		}
 		checkFlows(ppi, "argument of pathID", sinks, ppi.Pos())
+		// every path key is entered into the duplicate table before it counts as accepted
+		for _, f := range core.AllFuncs(ppi) {
+			for _, call := range core.Calls(f) {
+				if !core.IsCallTo(call.Common(), pkgParser, "pathID") {
+					continue
+				}
+				cv, ok := call.(*ssa.Call)
+				if !ok {
+					continue
+				}
+				var id ssa.Value
+				for _, ref := range *cv.Referrers() {
+					if ex, ok := ref.(*ssa.Extract); ok && ex.Index == 0 {
+						id = ex
+					}
+				}
+				var inserts []*ssa.MapUpdate
+				for _, b := range f.Blocks {
+					for _, in := range b.Instrs {
+						if mu, ok := in.(*ssa.MapUpdate); ok && id != nil && mu.Key == id {
+							inserts = append(inserts, mu)
+						}
+					}
+				}
+				dominated := func(at ssa.Instruction) bool {
+					for _, mu := range inserts {
+						if mu.Block() == at.Block() {
+							for _, in := range mu.Block().Instrs {
+								if in == ssa.Instruction(mu) {
+									return true
+								}
+								if in == at {
+									break
+								}
+							}
+						} else if mu.Block().Dominates(at.Block()) {
+							return true
+						}
+					}
+					return false
+				}
+				n := 0
+				if f != ppi {
+					for _, b := range f.Blocks {
+						ret, ok := b.Instrs[len(b.Instrs)-1].(*ssa.Return)
+						if !ok || len(ret.Results) == 0 || !core.IsNilConst(ret.Results[len(ret.Results)-1]) {
+							continue
+						}
+						n++
+						if dominated(ret) {
+							r3.Pass("parsePathItems: a path key is accepted only after its identity was entered into the duplicate table")
+						} else {
+							r3.Fail("parsePathItems:accept-without-register", c.Pos(ret.Pos()), "a path key is accepted (the per-key check returns nil) on a path that does not enter its normalised identity into the duplicate table: a later equivalent spelling of the same path is not reported as a duplicate")
+						}
+					}
+				} else {
+					for _, pc := range core.Calls(ppi) {
+						if strings.HasSuffix(core.CalleeName(pc.Common()), ".parsePathItem") {
+							n++
+							if dominated(pc) {
+								r3.Pass("parsePathItems: parsePathItem runs only after the key's identity was entered into the duplicate table")
+							} else {
+								r3.Fail("parsePathItems:accept-without-register", c.Pos(pc.Pos()), "parsePathItem is reachable for a key whose normalised identity was not entered into the duplicate table")
+							}
+						}
+					}
+				}
+				if n == 0 {
+					r3.Undecided("parsePathItems:register", c.Pos(call.Pos()), "no accepting exit found after pathID")
+				}
+			}
+		}
 	}
 	if pp := prog.Func(pkgParser, "parsePath"); pp == nil {
 		r3.Undecided("anchor:parsePath", "-", "openapi/parser.parsePath not found")
@@ -436,4 +513,319 @@ func sameRawInput(a, b ssa.Value) bool {
 		}
 	}
 	return true
+}
+
+// checkEscapeDecisionTables (R12.4) tabulates, over every pair of bytes (a, b)
+// that can follow a '%', the two decisions NormalizeEscapedPath makes about one
+// escape, by constant-folding the function's SSA from the block where the
+// escape starts (the string reads at +1 / +2 bound to a and b, the length tests
+// assumed to pass):
+//
+//	fast scan:  invalid | keep (the escape is already in normal form) | rewrite
+//	rewriting:  invalid | the bytes written for the escape
+//
+// and compares both tables with the definition: invalid iff a or b is not a hex
+// digit; otherwise the escape stands for the octet v = 16·hex(a)+hex(b), whose
+// normal form is the octet itself if it is RFC 3986 unreserved and '%' + upper
+// hex otherwise; keep iff the input already is that normal form.
+func checkEscapeDecisionTables(c *core.Ctx, prog *core.Prog) {
+	r := c.NewRule("R12.4", "S1", "per-escape decision tables of NormalizeEscapedPath (fast scan and rewriting loop) equal the definition on all 65536 byte pairs", 2)
+	fn := prog.Func(pkgURI, "NormalizeEscapedPath")
+	if fn == nil {
+		r.Undecided("anchor:NormalizeEscapedPath", "-", "uri.NormalizeEscapedPath not found")
+		return
+	}
+	isLenCall := func(v ssa.Value) bool {
+		call, ok := v.(*ssa.Call)
+		if !ok {
+			return false
+		}
+		b, ok := call.Common().Value.(*ssa.Builtin)
+		return ok && b.Name() == "len"
+	}
+	// string reads base+1 / base+2 grouped by base
+	type rd struct {
+		lk ssa.Value
+		k  int64
+	}
+	// a string byte read: (string operand, index operand)
+	strRead := func(in ssa.Instruction) (ssa.Value, ssa.Value, ssa.Value) {
+		var v, x, i ssa.Value
+		switch r := in.(type) {
+		case *ssa.Lookup:
+			v, x, i = r, r.X, r.Index
+		case *ssa.Index:
+			v, x, i = r, r.X, r.Index
+		default:
+			return nil, nil, nil
+		}
+		if bt, ok := x.Type().Underlying().(*types.Basic); !ok || bt.Info()&types.IsString == 0 {
+			return nil, nil, nil
+		}
+		return v, x, i
+	}
+	reads := map[ssa.Value][]rd{}
+	var builderBlock *ssa.BasicBlock
+	var lenTests []*ssa.BinOp
+	for _, b := range fn.Blocks {
+		for _, in := range b.Instrs {
+			if v, _, i := strRead(in); v != nil {
+				if bo, ok := i.(*ssa.BinOp); ok && bo.Op == token.ADD {
+					if k, ok := bo.Y.(*ssa.Const); ok && k.Value != nil {
+						reads[bo.X] = append(reads[bo.X], rd{v, k.Int64()})
+					}
+				}
+				continue
+			}
+			switch x := in.(type) {
+			case *ssa.Alloc:
+				if strings.HasSuffix(x.Type().String(), "strings.Builder") && builderBlock == nil {
+					builderBlock = x.Block()
+				}
+			case *ssa.BinOp:
+				if isLenCall(x.X) || isLenCall(x.Y) {
+					lenTests = append(lenTests, x)
+				}
+			}
+		}
+	}
+	hexv := func(ch int) int {
+		switch {
+		case '0' <= ch && ch <= '9':
+			return ch - '0'
+		case 'a' <= ch && ch <= 'f':
+			return ch - 'a' + 10
+		case 'A' <= ch && ch <= 'F':
+			return ch - 'A' + 10
+		}
+		return -1
+	}
+	un := setOf(unreserved)
+	const upperHex = "0123456789ABCDEF"
+	// the normal form of %ab
+	want := func(a, b int) (valid bool, out []byte) {
+		ha, hb := hexv(a), hexv(b)
+		if ha < 0 || hb < 0 {
+			return false, nil
+		}
+		v := byte(ha<<4 | hb)
+		if un[v] {
+			return true, []byte{v}
+		}
+		return true, []byte{'%', upperHex[ha], upperHex[hb]}
+	}
+	newEnv := func(base ssa.Value, a, b int) *ssaeval.Env {
+		env := &ssaeval.Env{Bind: map[ssa.Value]ssaeval.Val{}, Budget: 4000}
+		for _, x := range reads[base] {
+			switch x.k {
+			case 1:
+				env.Bind[x.lk] = constant.MakeInt64(int64(a))
+			case 2:
+				env.Bind[x.lk] = constant.MakeInt64(int64(b))
+			}
+		}
+		for _, t := range lenTests {
+			// "x within the string" is assumed: x >= len, x > len are false; x < len, x <= len are true
+			inRange := t.Op == token.LSS || t.Op == token.LEQ
+			if isLenCall(t.X) { // len on the left: len > x, len >= x true; len <= x, len < x false
+				inRange = t.Op == token.GTR || t.Op == token.GEQ
+			}
+			env.Bind[t] = constant.MakeBool(inRange)
+		}
+		return env
+	}
+	describe := func(pairs [][2]int) string {
+		var parts []string
+		for i, p := range pairs {
+			if i >= 6 {
+				parts = append(parts, fmt.Sprintf("… (%d pairs)", len(pairs)))
+				break
+			}
+			parts = append(parts, fmt.Sprintf("%%%c%c", p[0], p[1]))
+		}
+		return strings.Join(parts, " ")
+	}
+	printable := func(a, b int) bool { return a >= 0x21 && a < 0x7f && b >= 0x21 && b < 0x7f }
+
+	// ---- fast scan
+	var idx *ssa.Call
+	for _, call := range core.Calls(fn) {
+		if cv, ok := call.(*ssa.Call); ok && core.IsCallTo(call.Common(), "strings", "IndexByte") {
+			idx = cv
+		}
+	}
+	var keep *ssa.Slice
+	if idx != nil {
+		for _, b := range fn.Blocks {
+			for _, in := range b.Instrs {
+				if sl, ok := in.(*ssa.Slice); ok && sl.High == nil {
+					if bo, ok := sl.Low.(*ssa.BinOp); ok && bo.Op == token.ADD && bo.X == ssa.Value(idx) {
+						if k, ok := bo.Y.(*ssa.Const); ok && k.Int64() == 3 {
+							keep = sl
+						}
+					}
+				}
+			}
+		}
+	}
+	if idx == nil || keep == nil || builderBlock == nil || len(reads[idx]) < 2 {
+		r.Undecided("fast-scan:shape", c.Pos(fn.Pos()), "the fast scan is not of the recognised shape (idx := strings.IndexByte(iter, '%'); reads at idx+1, idx+2; keep = iter[idx+3:]; rewriting starts where the strings.Builder is allocated): its decision table cannot be tabulated")
+	} else {
+		// start after the `idx < 0` test
+		var start *ssa.BasicBlock
+		for _, ref := range *idx.Referrers() {
+			if bo, ok := ref.(*ssa.BinOp); ok && bo.Op == token.LSS {
+				for _, u := range *bo.Referrers() {
+					if iff, ok := u.(*ssa.If); ok {
+						start = iff.Block().Succs[1]
+					}
+				}
+			}
+		}
+		if start == nil {
+			r.Undecided("fast-scan:start", c.Pos(idx.Pos()), "no `idx < 0` test after strings.IndexByte")
+		} else {
+			var bad [][2]int
+			var firstWhy string
+			for a := 0; a < 256; a++ {
+				for b := 0; b < 256; b++ {
+					env := newEnv(idx, a, b)
+					env.StopAt = map[ssa.Instruction]bool{keep: true}
+					env.StopBlock = map[*ssa.BasicBlock]bool{builderBlock: true}
+					out := env.Walk(start, start.Preds[0])
+					got := "?"
+					switch {
+					case out.Kind == "stop" && out.Stop == ssa.Instruction(keep):
+						got = "keep"
+					case out.Kind == "stop":
+						got = "rewrite"
+					case out.Kind == "return" && len(out.Results) == 2 && out.Results[1] != nil && out.Results[1].Kind() == constant.Bool && !constant.BoolVal(out.Results[1]):
+						got = "invalid"
+					case out.Kind == "return":
+						got = "returns success"
+					default:
+						got = "unknown: " + out.Why
+					}
+					valid, nf := want(a, b)
+					exp := "invalid"
+					if valid {
+						exp = "rewrite"
+						if len(nf) == 3 && int(nf[1]) == a && int(nf[2]) == b {
+							exp = "keep"
+						}
+					}
+					if got != exp {
+						if printable(a, b) || len(bad) == 0 {
+							bad = append(bad, [2]int{a, b})
+						}
+						if firstWhy == "" {
+							firstWhy = fmt.Sprintf("%%%c%c: the scan decides %q, the definition says %q", a, b, got, exp)
+						}
+					}
+				}
+			}
+			if len(bad) == 0 {
+				r.Pass("fast scan: 65536 byte pairs tabulated; invalid / keep / rewrite agree with the definition")
+			} else {
+				r.Fail("fast-scan:table", c.Pos(idx.Pos()), fmt.Sprintf("the fast scan's decision differs from the definition of the normal form, e.g. %s (also %s): an escape that is not in normal form is kept, or a valid one rejected", firstWhy, describe(bad)))
+			}
+		}
+	}
+
+	// ---- rewriting loop: start where s[i] == '%'
+	var start *ssa.BasicBlock
+	var loopVar ssa.Value
+	for _, b := range fn.Blocks {
+		iff, ok := b.Instrs[len(b.Instrs)-1].(*ssa.If)
+		if !ok || builderBlock == nil || !builderBlock.Dominates(b) {
+			continue
+		}
+		bo, ok := iff.Cond.(*ssa.BinOp)
+		if !ok || bo.Op != token.EQL {
+			continue
+		}
+		lkI, isI := bo.X.(ssa.Instruction)
+		if !isI {
+			continue
+		}
+		lv, _, li := strRead(lkI)
+		k, ok2 := bo.Y.(*ssa.Const)
+		if lv != nil && ok2 && k.Value != nil && k.Int64() == '%' {
+			start, loopVar = b.Succs[0], li
+		}
+	}
+	if start == nil || len(reads[loopVar]) < 2 {
+		r.Undecided("rewrite:shape", c.Pos(fn.Pos()), "the rewriting loop is not of the recognised shape (switch s[i] { case '%': … reads at i+1, i+2 … }): its per-escape output cannot be tabulated")
+		return
+	}
+	phi, _ := loopVar.(*ssa.Phi)
+	if phi == nil {
+		r.Undecided("rewrite:loopvar", c.Pos(fn.Pos()), "the rewriting loop's index is not a loop-carried variable")
+		return
+	}
+	var bad [][2]int
+	var firstWhy string
+	for a := 0; a < 256; a++ {
+		for b := 0; b < 256; b++ {
+			env := newEnv(loopVar, a, b)
+			env.StopBlock = map[*ssa.BasicBlock]bool{phi.Block(): true}
+			var written []byte
+			okTrace := true
+			env.OnCall = func(call *ssa.Call, args []ssaeval.Val) {
+				name := core.CalleeName(call.Common())
+				switch name {
+				case "(*strings.Builder).WriteByte":
+					if len(args) == 2 && args[1] != nil {
+						v, _ := constant.Int64Val(args[1])
+						written = append(written, byte(v))
+					} else {
+						okTrace = false
+					}
+				case "(*strings.Builder).WriteString", "(*strings.Builder).Write", "(*strings.Builder).WriteRune":
+					okTrace = false
+				}
+			}
+			out := env.Walk(start, start.Preds[0])
+			got := ""
+			switch {
+			case out.Kind == "stop" && okTrace:
+				got = "writes " + strconv.Quote(string(written))
+			case out.Kind == "return" && len(out.Results) == 2 && out.Results[1] != nil && out.Results[1].Kind() == constant.Bool && !constant.BoolVal(out.Results[1]):
+				got = "invalid"
+			default:
+				got = "unknown: " + out.Kind + " " + out.Why
+			}
+			valid, nf := want(a, b)
+			exp := "invalid"
+			if valid {
+				exp = "writes " + strconv.Quote(string(nf))
+			}
+			if got != exp {
+				if printable(a, b) || len(bad) == 0 {
+					bad = append(bad, [2]int{a, b})
+				}
+				if firstWhy == "" {
+					firstWhy = fmt.Sprintf("%%%c%c: the loop %s, the definition says %s", a, b, got, exp)
+				}
+			}
+		}
+	}
+	// the loop must advance by exactly the three bytes of the escape
+	adv := false
+	for i, e := range phi.Edges {
+		_ = i
+		if bo, ok := e.(*ssa.BinOp); ok && bo.Op == token.ADD && bo.X == ssa.Value(phi) {
+			if k, ok := bo.Y.(*ssa.Const); ok && k.Int64() == 3 {
+				adv = true
+			}
+		}
+	}
+	switch {
+	case len(bad) > 0:
+		r.Fail("rewrite:table", c.Pos(start.Instrs[0].Pos()), fmt.Sprintf("the rewriting loop's output for one escape differs from the normal form, e.g. %s (also %s)", firstWhy, describe(bad)))
+	case !adv:
+		r.Fail("rewrite:advance", c.Pos(start.Instrs[0].Pos()), "the rewriting loop does not advance by 3 after an escape")
+	default:
+		r.Pass("rewriting loop: 65536 byte pairs tabulated; invalid / written bytes agree with the normal form; advances by 3")
+	}
 }
